@@ -462,6 +462,18 @@ func (x *Exprer) callExpr(c *ssa.CallCommon, v ssa.Value) *Expr {
 		for _, a := range c.Args {
 			args = append(args, x.E(a))
 		}
+		// an interface method invoked on a value that was wrapped right here from a known concrete type is that type's
+		// method; when that method is a trivial getter the call is the field (h := exported.Height(m.Header.Height);
+		// h.GetRevisionHeight()  is  m.Header.Height.RevisionHeight)
+		if ct := concreteTypeOf(c.Value, 0); ct != nil && os.Getenv("XLINT_NO_GETTERS") == "" {
+			if m := x.P.SSA.LookupMethod(ct, c.Method.Pkg(), c.Method.Name()); m != nil && len(m.Blocks) > 0 {
+				if d := x.P.unwrap(m); d != nil && d != x.Fn && x.P.trivialGetter(d) {
+					if rets := x.P.RetExprs(d, 0); len(rets) == 1 {
+						return substParams(rets[0], args)
+					}
+				}
+			}
+		}
 		name := "iface:" + ifaceName(c.Value.Type()) + "." + c.Method.Name()
 		return canonCall(mk("invoke", name, v, args...))
 	}
@@ -493,6 +505,42 @@ func (x *Exprer) callExpr(c *ssa.CallCommon, v ssa.Value) *Expr {
 	}
 	// dynamic call through a function value
 	return mk("call", "dyn:"+x.E(c.Value).String(), v, args...)
+}
+
+// concreteTypeOf: the one concrete type an interface value is known to hold: it was wrapped from that type here, or it
+// is the result of a function all of whose returns wrap that type (a getter returning a struct field as an interface).
+func concreteTypeOf(v ssa.Value, depth int) types.Type {
+	if depth > 3 {
+		return nil
+	}
+	switch t := v.(type) {
+	case *ssa.MakeInterface:
+		if _, isIface := t.X.Type().Underlying().(*types.Interface); isIface {
+			return nil
+		}
+		return t.X.Type()
+	case *ssa.ChangeInterface:
+		return concreteTypeOf(t.X, depth+1)
+	case *ssa.Call:
+		sc := t.Call.StaticCallee()
+		if sc == nil || len(sc.Blocks) == 0 || sc.Signature.Results().Len() != 1 {
+			return nil
+		}
+		var ct types.Type
+		for _, b := range sc.Blocks {
+			ret, ok := b.Instrs[len(b.Instrs)-1].(*ssa.Return)
+			if !ok || len(ret.Results) != 1 {
+				continue
+			}
+			rt := concreteTypeOf(ret.Results[0], depth+1)
+			if rt == nil || (ct != nil && !types.Identical(ct, rt)) {
+				return nil
+			}
+			ct = rt
+		}
+		return ct
+	}
+	return nil
 }
 
 func ifaceName(t types.Type) string {
